@@ -4,6 +4,7 @@
 #include "llvm/IR/ConstantRange.h"
 #include "llvm/IR/Function.h"
 #include "llvm/Support/KnownBits.h"
+#include <array>
 #include <bitset>
 #include <memory>
 #include <string>
@@ -48,6 +49,9 @@ struct Val {
   int reg = -1;                     // PTR: region id (-1: null only)
   bool maybenull = false;           // PTR: may also be NULL
   Function *fn = nullptr;           // FN
+  // byte-function linkage: this value == ByteFns[tbl].val[b] where b is the low byte of SSA value tsrc
+  // (version tver, frame depth tdepth).  Created by tabulated pure calls and loads from constant byte-indexed tables.
+  int tbl = -1; const Value *tsrc = nullptr; unsigned tver = 0; unsigned tdepth = 0;
 
   static Val top(unsigned w, uint8_t prov = 0) {
     Val v; v.k = INT; v.w = w; v.r = ConstantRange::getFull(w); v.kb = KnownBits(w); v.prov = prov; return v;
@@ -90,6 +94,14 @@ struct Val {
   APInt constVal() const { return *r.getSingleElement(); }
   bool isEmpty() const { return k == INT && (r.isEmptySet() || (hascs && cs.none())); }
 };
+
+struct ByteFn { std::bitset<256> dom; std::array<int64_t, 256> val; };
+inline std::vector<ByteFn> &byteFns() { static std::vector<ByteFn> v; return v; }
+inline int internByteFn(const ByteFn &f) {
+  auto &v = byteFns();
+  for (size_t i = 0; i < v.size(); i++) if (v[i].dom == f.dom && v[i].val == f.val) return (int)i;
+  v.push_back(f); return (int)v.size() - 1;
+}
 
 inline i128 ap2i(const APInt &a, bool sgn) { return sgn ? (i128)a.getSExtValue() : (i128)a.getZExtValue(); }
 
